@@ -6,12 +6,12 @@ CONSTANTS
   Flags <- Flags_none
   CtxPersist = TRUE
   Topics = {"t1"}
-  Pats = {"CTX_TICK"}
+  Pats = {"CTX_TICK", "CTX_STOPPED"}
   MaxPay = 1
   Cap = 2
   MaxNest = 1
   Ops = {"CtxRegister", "CtxDeregister", "DropRef", "Dispatch", "CtxQuit", "ModRegister", "CtxSetTick", "TickFire", "Subscribe", "ModPause", "ModStop"}
-  CbOps = {}
+  CbOps = {"CtxSetTick"}
   EvalVals = {TRUE}
   Prios = {"N"}
   BatchSizes = {}
@@ -27,8 +27,12 @@ CONSTANTS
   TickVals = {0, 1, 2}
   Targets = {"A", "B"}
   AutoVals = {TRUE}
+  SubOneshot = {FALSE}
   Senders = {"A"}
   QuitCodes = {1}
+  ForeignOps = {}
+  MaxRefs = 1
+  MaxHeld = 0
   Setup = ""
 INIT Init
 NEXT Next
